@@ -6,13 +6,17 @@ EXTENDS Integers, Sequences, SequencesExt, FiniteSets, FiniteSetsExt, TLC, Json
 
 CONSTANTS MaxLen, MaxKeys, OutFile
 
-Alphabet == {"a", "b", ".", "/", "-", "_"}
+Alphabet == {"a", "b", "A", "1", ".", "/", "-", "_"}
 
 RECURSIVE Words(_)
 Words(n) == IF n = 0 THEN {<<>>} ELSE { <<c>> \o w : c \in Alphabet, w \in Words(n - 1) }
 Keys == UNION { Words(n) : n \in 1..MaxLen }
 
-AllMaps == UNION { kSubset(k, Keys) : k \in 0..MaxKeys }
+Sub(k) == CASE k = 0 -> {{}}
+            [] k = 1 -> { {a} : a \in Keys }
+            [] k = 2 -> { {a, b} : a \in Keys, b \in Keys }
+            [] OTHER -> { {a, b, c} : a \in Keys, b \in Keys, c \in Keys }
+AllMaps == UNION { Sub(k) : k \in 0..MaxKeys }
 
 NoStatus == [desired |-> 0, current |-> 0, ready |-> 0, available |-> 0, upToDate |-> 0, ignored |-> 0, canaryNodes |-> 0]
 NoFlags  == [canary |-> FALSE, ruPaused |-> FALSE, frozen |-> FALSE, failed |-> FALSE]
